@@ -52,6 +52,8 @@ class Flags:
         self.has_dict = False
         self.depth = 0                # > 0 while building the body of a nested lambda (not examined on an untyped stream)
         self.nested = False           # some refusal candidate sits inside a nested lambda
+        self.lite = False             # quick tier: fewer operator variants per form
+        self.may = False              # a refusal is possible but not certain (e.g. lookup in a dict whose keys prevent typing)
 
 
 def N(v):
@@ -119,13 +121,13 @@ def form(ch, f, v, deep, k, s, idx, fl, names=("value",)):
     if f == 2:
         return ast.UnaryOp(ast.Not(), deep())
     if f == 3:
-        op = [ast.Add, ast.Div, ast.Mult, ast.Mod][ch.pick(4)]()
+        op = [ast.Add, ast.Div, ast.Mult, ast.Mod][ch.pick(2 if fl.lite else 4)]()
         return ast.BinOp(deep(), op, other()) if ch.pick(2) == 0 else ast.BinOp(other(), op, deep())
     if f == 4:
-        op = [ast.Gt, ast.Eq, ast.NotEq][ch.pick(3)]()
+        op = [ast.Gt, ast.Eq, ast.NotEq][ch.pick(1 if fl.lite else 3)]()
         return ast.Compare(deep(), [op], [other()]) if ch.pick(2) == 0 else ast.Compare(other(), [op], [deep()])
     if f == 5:
-        op = [ast.And, ast.Or][ch.pick(2)]()
+        op = [ast.And, ast.Or][ch.pick(1 if fl.lite else 2)]()
         return ast.BoolOp(op, [deep(), other()]) if ch.pick(2) == 0 else ast.BoolOp(op, [other(), other(), deep()])
     if f == 6:
         p = ch.pick(3)
@@ -160,7 +162,10 @@ def form(ch, f, v, deep, k, s, idx, fl, names=("value",)):
         if c == 1:    # keyword argument holds the operand
             return ast.Call(ast.Attribute(N(v), nm, L), [other()], [ast.keyword(nm, deep())])
         if c == 2:    # the operand is the receiver
-            return ast.Call(ast.Attribute(deep(), nm, L), [], [])
+            d = deep()
+            if isinstance(d, ast.Dict):
+                fl.may = True      # attribute of a dict literal: refused unless it is one of its keys
+            return ast.Call(ast.Attribute(d, nm, L), [], [])
         return ast.Call(N("fn_" + nm), [deep(), other()], [])
     if f == 10:
         c = ch.pick(4)
@@ -171,7 +176,7 @@ def form(ch, f, v, deep, k, s, idx, fl, names=("value",)):
             elif isinstance(d, ast.Tuple):
                 fl.tuple_index.append((len(d.elts), k, True))
             elif isinstance(d, ast.Dict):
-                fl.dict_lookup.append(False)      # an int is never one of the (string) keys
+                fl.may = True      # an int is never one of the (string) keys; refused when the dict's keys allow typing it
             return ast.Subscript(d, ast.Constant(k), L)
         if c == 1:    # index into a tuple literal (designed refusals: non-constant / out of range)
             n = ast.Subscript(ast.Tuple([deep(), other()], L), ast.Constant(idx), L)
@@ -205,14 +210,7 @@ def form(ch, f, v, deep, k, s, idx, fl, names=("value",)):
             nm = names[ch.pick(len(names))]
             d = deep()
             if isinstance(d, ast.Dict):
-                if fl.depth == 0:
-                    defined = False
-                    for kk in d.keys:
-                        if kk.value == nm:
-                            defined = True
-                    fl.dict_lookup.append(defined)
-                else:
-                    fl.nested = True
+                fl.may = True
             return ast.Attribute(d, nm, L)
         fl.has_dict = True
         key = ["a", "zz"][ch.pick(2)]
@@ -227,7 +225,7 @@ def form(ch, f, v, deep, k, s, idx, fl, names=("value",)):
     d = deep()
     fl.depth -= 1
     inner = ast.Lambda(ast.arguments([], [ast.arg(w)], None, [], [], None, []), ast.BinOp(ast.Attribute(N(w), "pt", L), ast.Add(), d))
-    return ast.Call(ast.Attribute(ast.Attribute(N(v), "js", L), ["Select", "Where", "apply"][ch.pick(3)], L), [inner], [])
+    return ast.Call(ast.Attribute(ast.Attribute(N(v), "js", L), ["Select", "apply", "Where"][ch.pick(2 if fl.lite else 3)], L), [inner], [])
 
 
 def gen(ch, k, s, idx, fl, npool, full_leaves):
@@ -259,7 +257,7 @@ def verdict(op, body, fl, k, idx):
     for defined in fl.dict_lookup:
         if not defined:
             must_refuse = True
-    if fl.nested:
+    if fl.nested or fl.may:
         may = True
     if op == 2:
         root = body
@@ -271,6 +269,7 @@ def verdict(op, body, fl, k, idx):
 
 def run_one(op, picks, k, s, idx, npool, full_leaves):
     fl = Flags()
+    fl.lite = not full_leaves
     ch = Ch(picks)
     body = gen(ch, k, s, idx, fl, npool, full_leaves)
     if ch.bad or any_left(ch, picks):
@@ -351,7 +350,33 @@ def decode(code):
     return -1, -1, -1
 
 
+QUICK_CHILDREN = [0, 1, 4, 7, 8, 9, 10, 12]
+
+
+def decode_quick(code):
+    "0..103: Select, root = code // 8, child = QUICK_CHILDREN[code % 8]; 104..129: SelectMany / Where with the 13 roots over a leaf"
+    for c in range(max(LO, 0), min(HI, 130)):
+        if code == c:
+            if c < 104:
+                return 0, c // 8, QUICK_CHILDREN[c % 8]
+            return 1 + (c - 104) // 13, (c - 104) % 13, 0
+    return -1, -1, -1
+
+
 def c10(code: int, c3: int, c4: int, c5: int, c6: int, c7: int, c8: int, c9: int, k: int, kb: int, s: str, idx: int) -> str:
+    """
+    pre: LO <= code < HI and 0 <= code < 130 and -9 <= kb <= 9
+    pre: 0 <= c3 <= 7 and 0 <= c4 <= 7 and 0 <= c5 <= 7 and 0 <= c6 <= 7 and 0 <= c7 <= 7 and 0 <= c8 <= 7 and 0 <= c9 <= 7
+    pre: len(s) <= 2 and -3 <= idx <= 3
+    post: (_ == '') != TWIN
+    """
+    op, f, g = decode_quick(code)
+    if op < 0:
+        return ""
+    return check(op, [f, g, c3, c4, c5, c6, c7, c8, c9], k, kb, s, idx, 2, False)
+
+
+def c10t(code: int, c3: int, c4: int, c5: int, c6: int, c7: int, c8: int, c9: int, k: int, kb: int, s: str, idx: int) -> str:
     """
     pre: LO <= code < HI and 0 <= code < 195 and -9 <= kb <= 9
     pre: 0 <= c3 <= 7 and 0 <= c4 <= 7 and 0 <= c5 <= 7 and 0 <= c6 <= 7 and 0 <= c7 <= 7 and 0 <= c8 <= 7 and 0 <= c9 <= 7
@@ -361,17 +386,4 @@ def c10(code: int, c3: int, c4: int, c5: int, c6: int, c7: int, c8: int, c9: int
     op, f, g = decode(code)
     if op < 0:
         return ""
-    return check(op, [f, g, c3, c4, c5, c6, c7, c8, c9], k, kb, s, idx, 3, False)
-
-
-def c10t(code: int, c3: int, c4: int, c5: int, c6: int, c7: int, c8: int, c9: int, k: int, kb: int, s: str, idx: int) -> str:
-    """
-    pre: LO <= code < HI and 0 <= code < 533 and -9 <= kb <= 9
-    pre: 0 <= c3 <= 14 and 0 <= c4 <= 14 and 0 <= c5 <= 14 and 0 <= c6 <= 14 and 0 <= c7 <= 14 and 0 <= c8 <= 14 and 0 <= c9 <= 14
-    pre: len(s) <= 3 and -4 <= idx <= 4
-    post: (_ == '') != TWIN
-    """
-    op, f, g = decode(code)
-    if op < 0:
-        return ""
-    return check(op, [f, g, c3, c4, c5, c6, c7, c8, c9], k, kb, s, idx, 15)
+    return check(op, [f, g, c3, c4, c5, c6, c7, c8, c9], k, kb, s, idx, 6, True)
